@@ -202,7 +202,9 @@ func decodeRequestTable(c *Ctx, pr *PropertyRun, prop string) {
 	kinds := []string{"CharData", "Comment", "ProcInst", "EOF", "error"}
 	var nTok int
 	spec := DTXSpec{Name: "DecodeXMLRequest", Entry: fn,
-		Sym: SymSpec{NonNil: func(string) bool { return true }},
+		// a request may be of any size (a multiget with thousands of hrefs):
+		// the announced length is small, large or unknown (-1)
+		Sym: SymSpec{NonNil: func(string) bool { return true }, IntDomain: func(string) []int64 { return []int64{-1, 100, 1 << 40} }},
 		Setup: func(in *Interp) {
 			nTok = 0
 			in.Models = append(in.Models, func(in *Interp, site ssa.CallInstruction, name string, args []Val) (Val, bool) {
